@@ -65,6 +65,34 @@ def main(argv):
         with open(path) as f:
             rp = json.load(f)
         prop = rp["property"]
+        if isinstance(rp.get("case"), dict) and "fuzz" in rp["case"]:
+            from . import fuzz
+            ok, msg = fuzz.build()
+            if not ok:
+                print("inconclusive: fuzz targets do not build:", msg[-300:])
+                return 2
+            bad, text = fuzz.replay(rp["case"]["fuzz"], rp["case"]["input_hex"])
+            print(text)
+            if bad:
+                print("VIOLATION property=%s replay=%s" % (prop, path))
+                return 1
+            print("replay: property held")
+            return 0
+        if isinstance(rp.get("case"), dict) and "inproc" in rp["case"]:
+            from . import inproc
+            ok, msg = inproc.build()
+            if not ok:
+                print("inconclusive: in-process crate does not build:", msg[-300:])
+                return 2
+            c = rp["case"]
+            r = inproc.run(c.get("mode", c["inproc"]), c.get("n", 20000), c.get("seed", 0), *c.get("extra", []))
+            for f in r["failures"]:
+                print(f["detail"][:1500])
+            if r["failures"]:
+                print("VIOLATION property=%s replay=%s" % (prop, path))
+                return 1
+            print("replay: property held")
+            return 0
         mod = importlib.import_module("rv.props." + prop.lower())
         n = int(os.environ.get("RV_REPLAY_TIMES", "1"))
         bad = 0
